@@ -5,8 +5,11 @@ package index
 // Verification hooks (build tag "verif" only; add-only; nothing here is compiled into a normal build).
 
 import (
+	"bytes"
+	"path/filepath"
 	"time"
 
+	"perkeep.org/internal/magic"
 	"perkeep.org/pkg/blob"
 	"perkeep.org/pkg/types/camtypes"
 )
@@ -33,4 +36,40 @@ func (c *Corpus) VerifValuesAtSigner(pn blob.Ref, at time.Time, signerFilter str
 		return "nilok"
 	}
 	return "cache"
+}
+
+// VerifAwaitReindex waits until every asynchronous out-of-order indexing goroutine
+// (indexReadyBlobs) has finished (properties C05, C06).
+func (x *Index) VerifAwaitReindex() { x.reindexWg.Wait() }
+
+// VerifPending reports the in-memory bookkeeping of blobs waiting for dependencies: the
+// (have, missing) pairs of needs, the (missing, have) pairs of neededBy (duplicates kept) and the
+// readyReindex set, as blobref strings in no particular order (properties C05, C06).
+func (x *Index) VerifPending() (needs, neededBy [][2]string, ready []string) {
+	x.RLock()
+	defer x.RUnlock()
+	for have, l := range x.needs {
+		for _, m := range l {
+			needs = append(needs, [2]string{have.String(), m.String()})
+		}
+	}
+	for m, l := range x.neededBy {
+		for _, have := range l {
+			neededBy = append(neededBy, [2]string{m.String(), have.String()})
+		}
+	}
+	for br := range x.readyReindex {
+		ready = append(ready, br.String())
+	}
+	return
+}
+
+// VerifFileMIME is the MIME type populateFile records for a file with the given contents and
+// name: content sniffing first, the file name's extension otherwise (properties C05, C06).
+func VerifFileMIME(contents []byte, fileName string) string {
+	mimeType, _ := magic.MIMETypeFromReader(bytes.NewReader(contents))
+	if mimeType == "" {
+		mimeType = magic.MIMETypeByExtension(filepath.Ext(fileName))
+	}
+	return mimeType
 }
